@@ -564,4 +564,45 @@ theorem inplace_update_leaks_into_other_classes :
 
 example : WF ctStore := by intro c a; simp [ctStore]
 
+
+/-! ### the per-class dispatch table is shared by all instances and never written through one -/
+
+open SqlglotModel.Threads.SharedTable
+
+/-- finite table fact, decided completely (ast of generator.py, generators/*.py, parser.py, parsers/*.py, tokens.py):
+    `_DISPATCH_CACHE[...]` is stored exactly once, in the cache-filling branch of `Generator.__init__`; no method stores
+    into, deletes from or calls a mutating method on `self._dispatch`, on an UPPER_CASE class table reached through
+    `self`, or on a local alias of one of them -/
+theorem shared_dispatch_never_written_per_instance :
+    perInstanceCacheWrites = [] ∧ dispatchCacheStores = 1 := by decide
+
+def TFromSource (cfg : TCfg) : Prop := cfg.ctorWrites = !perInstanceCacheWrites.isEmpty
+
+theorem TFromSource.readonly {cfg : TCfg} (h : TFromSource cfg) : cfg.ctorWrites = false := by
+  rw [h, shared_dispatch_never_written_per_instance.1]; rfl
+
+/-- the shared table is never written: it has its initial content in every reachable state -/
+theorem readonly_table_never_written (cfg : TCfg) (hsrc : TFromSource cfg) (slot0 : Nat)
+    (progs : Tid → List (Nat × Nat)) (s : TState) (hr : TReach cfg (tinit slot0 progs) s) : s.slot = slot0 :=
+  (TInv.reach hsrc.readonly hr).slot
+
+/-- Fresh workers + a READ-ONLY shared table: every complete schedule of any number of threads whose calls differ in
+    their dialect settings gives each call the entries rendered by the handler of its OWN setting. -/
+theorem readonly_table_schedule_independent (cfg : TCfg) (hsrc : TFromSource cfg) (slot0 : Nat)
+    (progs : Tid → List (Nat × Nat)) (sched : List Tid) (hc : TComplete (trun cfg (tinit slot0 progs) sched)) (t : Tid) :
+    ((trun cfg (tinit slot0 progs) sched).threads t).results = tseq (progs t) := by
+  have h := (TInv.reach hsrc.readonly
+    (treach_trun (TReach.init (cfg := cfg) (s0 := tinit slot0 progs)) sched)).fin t
+  simpa [tfinal, (hc t).2] using h
+
+/-- WHY: the constructor stores the handler for ITS setting into the shared slot — thread 0 (setting 3, "version=3.0")
+    builds its worker, thread 1 (setting 4) builds its own before thread 0 renders: thread 0 renders with handler 4 -/
+def ttwo : Tid → List (Nat × Nat) := fun t => if t = 0 then [(2, 3)] else if t = 1 then [(2, 4)] else []
+
+theorem ctor_write_breaks_results :
+    ((trun { ctorWrites := true } (tinit 4 ttwo) [0, 1, 0, 0, 0, 1, 1, 1]).threads 0).results = [[(0, 4), (1, 4)]] ∧
+    ((trun { ctorWrites := false } (tinit 4 ttwo) [0, 1, 0, 0, 0, 1, 1, 1]).threads 0).results = [[(0, 3), (1, 3)]] ∧
+    ((trun { ctorWrites := false } (tinit 4 ttwo) [0, 1, 0, 0, 0, 1, 1, 1]).threads 1).results = [[(0, 4), (1, 4)]] := by
+  decide +kernel
+
 end SqlglotModel.Properties.C19
